@@ -41,6 +41,7 @@ type Config struct {
 	CoverModels  bool
 	DumpSMT      string
 	AbstractTime bool
+	NoSlice      bool
 }
 
 type PathOpts struct {
@@ -405,7 +406,24 @@ func (e *Explorer) Run() *HarnessResult {
 			}
 		}(s)
 	}
+	stopProg := make(chan struct{})
+	go func() {
+		tk := time.NewTicker(30 * time.Second)
+		defer tk.Stop()
+		for {
+			select {
+			case <-stopProg:
+				return
+			case <-tk.C:
+				e.mu.Lock()
+				fmt.Fprintf(os.Stderr, "[engine] %s progress: paths=%d queue=%d active=%d ends=%v violations=%d t=%.0fs\n",
+					e.harness.Name(), e.res.Paths, len(e.stack), e.active, e.res.Ends, len(e.res.Violations), time.Since(e.start).Seconds())
+				e.mu.Unlock()
+			}
+		}
+	}()
 	wg.Wait()
+	close(stopProg)
 	for _, s := range solvers {
 		e.res.Queries += s.Queries
 		e.res.Sat += s.Sat
